@@ -287,6 +287,43 @@ export async function run(ctx) {
           await judge(ctx, { files: { "entry.ts": text }, settings: { string_formats: [], number_formats: [] } }, `grid:${cn}/${on}${mutual ? "/mutual" : ""}`);
         }
   }
+  // two (or three) different recursive types that each go through a semantic operator in ONE build:
+  // the helper types the computations introduce share the build's name space
+  {
+    const conts = [
+      ["array", (n) => `{ v: 1; kids: ${n}[] }`],
+      ["object", (n) => `{ v: string; next?: ${n} }`],
+      ["object-required", (n) => `{ w: number; next: ${n} | null }`],
+      ["tuple-rest", (n) => `[number, ...${n}[]]`],
+      ["record", (n) => `Record<string, ${n}> | boolean`],
+      ["union", (n) => `string | ${n}[] | { [k: string]: ${n} }`],
+      ["map", (n) => `Map<string, ${n}>`],
+      ["set", (n) => `Set<${n}>`],
+    ];
+    const semOps = [
+      ["exclude-null", (n) => `Exclude<${n} | null, null>`],
+      ["exclude-lit", (n) => `Exclude<${n} | "x", "x">`],
+      ["extract", (n) => `Extract<${n} | string, ${n}>`],
+      ["nonnullable", (n) => `NonNullable<${n} | undefined>`],
+      ["generic-exclude", (n) => `NoX<${n}>`],
+      ["indexed", (n) => `{ a: ${n}; b: string }["a" | "b"]`],
+      ["conditional-infer-free", (n) => `Keep<${n} | 7>`],
+    ];
+    let k = 0;
+    for (let i = 0; i < conts.length; i++)
+      for (let j = i; j < conts.length; j++)
+        for (let a = 0; a < semOps.length; a++) {
+          const b = (a + i + j) % semOps.length;
+          k++;
+          if (k % ctx.of !== ctx.shard) continue;
+          const [c1n, c1] = conts[i], [c2n, c2] = conts[j];
+          const [o1n, o1] = semOps[a], [o2n, o2] = semOps[b];
+          const third = (i + j + a) % 3 === 0 ? `  Z: ${semOps[(a + 1) % semOps.length][1]("N3")};\n` : "";
+          const text = `type NoX<T> = Exclude<T | "x", "x">;\ntype Keep<T> = T extends number ? never : T;\ntype N1 = ${c1("N1")};\ntype N2 = ${i === j ? c2("N2").replace(/string|number|1/, "boolean") : c2("N2")};\ntype N3 = { deep: N3[]; tag: "n3" } | null;\nexport const P = parse.buildParsers<{\n  X: ${o1("N1")};\n  Y: ${o2("N2")};\n${third}}>();\n`;
+          ctx.count("computed-recursive-pairs");
+          await judge(ctx, { files: { "entry.ts": text }, settings: { string_formats: [], number_formats: [] } }, `pairs:${c1n}+${c2n}/${o1n}+${o2n}`);
+        }
+  }
   // every (type of empty or collapsing meaning) x (position) combination: the places where a
   // simplification step may leave a node with no members behind
   {
